@@ -30,6 +30,8 @@ type C09Case struct {
 	Relogon bool `json:"relogon,omitempty"`
 	// AfterLogout: the peer's Logout has been answered, the connection stays open
 	AfterLogout bool `json:"after_logout,omitempty"`
+	// LocalLogout: the application has called Logout(); the peer never answers and never says anything again
+	LocalLogout bool `json:"local_logout,omitempty"`
 }
 
 func tolT(n int) time.Duration {
@@ -95,9 +97,14 @@ func genC09(t *rapid.T) *C09Case {
 		adv(rapid.Int64Range(1, N).Draw(t, "logoutDt"))
 		add(rig.Step{Op: "in", In: g.logout()})
 	}
+	if !c.Relogon && !c.AfterLogout && rapid.IntRange(0, 7).Draw(t, "localLogout") == 0 {
+		c.LocalLogout = true
+		adv(rapid.Int64Range(1, N/2+1).Draw(t, "localLogoutDt"))
+		add(rig.Step{Op: "logout"})
+	}
 	eps := rapid.SampledFrom([]int64{1, int64(time.Millisecond), T / 100}).Draw(t, "eps")
 	c.Pattern = rapid.SampledFrom([]string{"total-silence", "ends-just-before-T", "ends-just-after-T", "answer-in-second-period", "steady"}).Draw(t, "pattern")
-	if c.AfterLogout {
+	if c.AfterLogout || c.LocalLogout {
 		c.Pattern = "total-silence"
 	}
 	switch c.Pattern {
@@ -317,6 +324,9 @@ func checkC09(c *C09Case, rec *evid.Rec) (vs []pbt.Violation) {
 	}
 	if c.AfterLogout {
 		rec.Hist("silence-after-a-logout-exchange")
+	}
+	if c.LocalLogout {
+		rec.Hist("silence-after-an-unanswered-local-logout")
 	}
 	if c.RefuseProbes && nProbes > 0 {
 		rec.Hist("probe-refused-by-application-handler")
